@@ -117,7 +117,11 @@ func c10WantSections(e *c10Elf) []c10Sec {
 const c10Patience = 10 * time.Second
 
 func (env *c10Env) call(what string, f func()) *vlib.Failure {
-	env.reset()
+	// Mostly the block is installed once (c10Place) and all queries follow one another, as in the
+	// kernel; one case in five restores the block's bytes and installs it anew before every query.
+	if env.c.Pad&2 != 0 {
+		env.reset()
+	}
 	pc := vlib.CatchFault(f)
 	if !pc.Panicked {
 		return nil
@@ -157,34 +161,39 @@ func c10Queries(c c10Case, env *c10Env) *vlib.Failure {
 	if i := c.first("mmap"); i >= 0 {
 		regs = c.Tags[i].Mmap.Regions
 	}
-	var got []c10Region
-	if f := env.call("VisitMemRegions", func() {
-		VisitMemRegions(func(e *MemoryMapEntry) bool {
-			got = append(got, c10Region{A: e.PhysAddress, L: e.Length, T: uint32(e.Type)})
-			return len(got) <= len(regs)+2
-		})
-	}); f != nil {
-		return f
-	}
-	for i := 0; i < len(got) && i < len(regs); i++ {
-		w := c10Region{A: regs[i].A, L: regs[i].L, T: c10WantType(regs[i].T)}
-		if got[i] != w {
-			return vlib.Failf("VisitMemRegions: region %d of %d reported as (addr %#x, len %#x, type %d); the block encodes (addr %#x, len %#x, type %d => %d)",
-				i, len(regs), got[i].A, got[i].L, got[i].T, regs[i].A, regs[i].L, regs[i].T, w.T)
+	fullWalk := func(when string) *vlib.Failure {
+		var got []c10Region
+		if f := env.call("VisitMemRegions"+when, func() {
+			VisitMemRegions(func(e *MemoryMapEntry) bool {
+				got = append(got, c10Region{A: e.PhysAddress, L: e.Length, T: uint32(e.Type)})
+				return len(got) <= len(regs)+2
+			})
+		}); f != nil {
+			return f
 		}
+		for i := 0; i < len(got) && i < len(regs); i++ {
+			w := c10Region{A: regs[i].A, L: regs[i].L, T: c10WantType(regs[i].T)}
+			if got[i] != w {
+				return vlib.Failf("VisitMemRegions%s: region %d of %d reported as (addr %#x, len %#x, type %d); the block encodes (addr %#x, len %#x, type %d => %d)",
+					when, i, len(regs), got[i].A, got[i].L, got[i].T, regs[i].A, regs[i].L, regs[i].T, w.T)
+			}
+		}
+		if len(got) != len(regs) {
+			return vlib.Failf("VisitMemRegions%s: visitor called %s%d times; the first memory-map tag encodes %d regions (memory-map tag present: %v)",
+				when, map[bool]string{true: "at least ", false: ""}[len(got) > len(regs)], len(got), len(regs), c.first("mmap") >= 0)
+		}
+		return nil
 	}
-	if len(got) != len(regs) {
-		return vlib.Failf("VisitMemRegions: visitor called %s%d times; the first memory-map tag encodes %d regions (memory-map tag present: %v)",
-			map[bool]string{true: "at least ", false: ""}[len(got) > len(regs)], len(got), len(regs), c.first("mmap") >= 0)
-	}
-	if c.StopAt > 0 {
+	stoppedWalk := func() *vlib.Failure {
 		calls := 0
+		var got []c10Region
 		if f := env.call("VisitMemRegions (visitor stops the walk)", func() {
 			VisitMemRegions(func(e *MemoryMapEntry) bool {
 				calls++
 				if calls > len(regs)+2 {
 					return false
 				}
+				got = append(got, c10Region{A: e.PhysAddress, L: e.Length, T: uint32(e.Type)})
 				return calls != c.StopAt
 			})
 		}); f != nil {
@@ -192,6 +201,34 @@ func c10Queries(c c10Case, env *c10Env) *vlib.Failure {
 		}
 		if calls != c.StopAt {
 			return vlib.Failf("VisitMemRegions: the visitor returned false at call %d of %d regions, yet it was called %d times", c.StopAt, len(regs), calls)
+		}
+		for i := range got {
+			if w := (c10Region{A: regs[i].A, L: regs[i].L, T: c10WantType(regs[i].T)}); got[i] != w {
+				return vlib.Failf("VisitMemRegions (walk stopped by the visitor at call %d): region %d reported as (addr %#x, len %#x, type %d); the block encodes (addr %#x, len %#x, type %d => %d)",
+					c.StopAt, i, got[i].A, got[i].L, got[i].T, regs[i].A, regs[i].L, regs[i].T, w.T)
+			}
+		}
+		return nil
+	}
+	// the stopped walk comes first, in the middle or not at all; a complete walk always follows it
+	if c.StopAt > 0 && c.Pad%2 == 1 {
+		if f := stoppedWalk(); f != nil {
+			return f
+		}
+		if f := fullWalk(" (first complete walk, after a walk the visitor stopped)"); f != nil {
+			return f
+		}
+	} else {
+		if f := fullWalk(""); f != nil {
+			return f
+		}
+		if c.StopAt > 0 {
+			if f := stoppedWalk(); f != nil {
+				return f
+			}
+			if f := fullWalk(" (again, after a walk the visitor stopped)"); f != nil {
+				return f
+			}
 		}
 	}
 
